@@ -59,6 +59,21 @@ def sources(tier, seed, ctx):
             if diff:
                 ob[diff - 1] = 1 + ((oa[diff - 1] + 2) % 6)
             srcs.append({'a': a, 'b': a, 'oa': oa, 'ob': ob, 'shared': diff == 1, 'permute_right_inputs': False, 'ps': w, 'nest': 0, 'names': 0, 'prelude': False})
+    # output labels that become ambiguous once joined: (a_b, c) and (a, b_c) both spell a_b_c - for every separator the
+    # library uses in names it generates ('_', '@', ' ', ''), both output orders, differing in the first / second pair only
+    for sep in ('_', '@', ' ', '', '__'):
+        for flip in (False, True):
+            for which in (0, 1):
+                A, B, C = 'a', 'b', 'c'
+                lout = [A + sep + B, A] if not flip else [A, A + sep + B]
+                rout = [C, B + sep + C] if not flip else [B + sep + C, C]
+                if len(set(lout + rout)) < 4:
+                    continue
+                ga = [['AND', [1, 2]], ['OR', [1, 2]]]
+                gb = [['AND', [1, 2]], ['OR', [1, 2]]]
+                gb[which] = ['XOR', [1, 2]]          # the operands differ in output `which` only
+                srcs.append({'a': [2, ga], 'b': [2, gb], 'oa': [3, 4], 'ob': [3, 4], 'shared': False, 'permute_right_inputs': False, 'ps': 0,
+                             'nest': 0, 'names': 0, 'prelude': False, 'la': ['x', 'y'] + lout, 'lb': ['x', 'y'] + rout})
     # deep operands: one path longer than the interpreter's recursion limit on both sides, equal and differing in one gate
     for depth in ([1200] if tier == 'quick' else [1200, 3000]):
         for diff in (False, True):
@@ -105,6 +120,8 @@ def record(src):
         ni_ = src['a'][0]
         la = [f'L{ni_ - 1 - j}' for j in range(ni_)] + la[ni_:]
     lb = None if src['shared'] else [f'R{j}' for j in range(src['b'][0] + len(src['b'][1]))]
+    if src.get('la'):
+        la, lb = list(src['la']), list(src['lb'])
     ra = H.rec_from_net((src['a'][0], [(t, o) for t, o in src['a'][1]]), src['oa'], labels=la)
     rb = H.rec_from_net((src['b'][0], [(t, o) for t, o in src['b'][1]]), src['ob'], labels=lb)
     left, right = hist.build(ra), hist.build(rb)
